@@ -776,6 +776,7 @@ impl World {
             "objapi" => self.op_objapi(r, op),
             "failcommit" => self.op_failcommit(r, op),
             "faults" => self.op_faults(r, op["seed"].as_u64().unwrap()),
+            "deep" => self.op_deep(r, op["depth"].as_u64().unwrap() as usize, op["where"].as_str().unwrap_or("doc")),
             "sync" => self.op_sync(),
             _ => panic!("unknown op {}", kind),
         }
@@ -1602,6 +1603,74 @@ impl World {
         }
     }
 
+    /// values nested close to / beyond what the JSON parser reads back (128 levels).  Whatever limit the
+    /// library chooses: a value it ACCEPTS behaves like any other (it is committed, reopened, melded by the
+    /// rest of the history), a value it REFUSES leaves the replica unchanged.
+    fn op_deep(&mut self, r: usize, depth: usize, place: &str) {
+        let mut v = json!(1);
+        for _ in 0..depth {
+            v = json!([v]);
+        }
+        match place {
+            "info" => {
+                let info = json!({ "n": v });
+                if depth < 100 {
+                    return self.op_commit(r, info);
+                }
+                let m = self.reps[r].m.as_ref().unwrap();
+                if !m.has_staging() {
+                    return;
+                }
+                let before = obs_full(m);
+                let res = catch_unwind(AssertUnwindSafe(|| m.commit(info.as_object().cloned())));
+                let m = self.reps[r].m.as_ref().unwrap();
+                let unchanged = obs_full(m) == before;
+                match res {
+                    Err(_) => self.fail("C08", format!("commit with information nested {} deep aborted", depth)),
+                    Ok(Err(_)) => {
+                        if !unchanged {
+                            self.fail("C09", "a refused commit changed the replica".into());
+                        }
+                    }
+                    Ok(Ok(a)) => {
+                        // accepted: then it must be durable like any other commit
+                        let mine: Vec<String> = m.get_anchors().iter().map(|x| x.to_string()).collect();
+                        let f = fresh_obs(&self.reps[r].be.snapshot());
+                        let theirs: Vec<String> = f.get("anchors").and_then(|x| x.as_array()).map(|x| x.iter().filter_map(|y| y.as_str().map(|s| s.to_string())).collect()).unwrap_or_default();
+                        let id = a.as_ref().and_then(|s| s.iter().next().map(|x| x.to_string()));
+                        self.emit("commit", r, "ok", json!({"id": id, "info": info}));
+                        if !self.reps[r].dirty && mine != theirs {
+                            self.fail("C03", format!("a commit with information nested {} deep was accepted but a reopened replica does not see it", depth));
+                            self.fail("C13", format!("a commit with information nested {} deep was accepted but a reopened replica does not see it", depth));
+                        }
+                    }
+                }
+            }
+            _ => {
+                let mut doc = self.reps[r].last_doc.as_object().cloned().unwrap_or_default();
+                doc.insert("deep".into(), v);
+                let doc = Value::from(doc);
+                let m = self.reps[r].m.as_ref().unwrap();
+                let before = obs_full(m);
+                let res = catch_unwind(AssertUnwindSafe(|| m.update(doc.as_object().unwrap().clone())));
+                let unchanged = obs_full(self.reps[r].m.as_ref().unwrap()) == before;
+                match res {
+                    Err(_) => self.fail("C08", format!("update with a document nested {} deep aborted", depth)),
+                    Ok(Ok(_)) => {
+                        // accepted: the ordinary update path (a second, identical submission changes nothing)
+                        self.reps[r].last_doc = doc.clone();
+                        self.op_update(r, &doc);
+                    }
+                    Ok(Err(_)) => {
+                        if !unchanged {
+                            self.fail("C04", "a refused update changed the replica".into());
+                        }
+                    }
+                }
+            }
+        }
+    }
+
     fn op_delete_object(&mut self, r: usize, pick: usize) {
         let m = self.reps[r].m.as_ref().unwrap();
         let objs: Vec<String> = m.get_all_objects().into_iter().filter(|u| !u.starts_with('^') && u != "\u{221A}").collect();
@@ -1802,7 +1871,8 @@ impl World {
                     4 => {
                         // blocks whose fields have the wrong JSON type: hash-valid when named by their digest, so they
                         // reach the block parser, which must reject them without aborting
-                        const BAD_BLOCKS: [&str; 14] = [
+                        const BAD_BLOCKS: [&str; 16] = [
+                            r#"{"p":["4294967295-ab"]}"#, r#"{"p":["4294967295-ab"],"c":[["k","ab"]]}"#,
                             r#"{"k":[1]}"#, r#"{"k":[null]}"#, r#"{"k":"x"}"#, r#"{"k":{}}"#, r#"{"i":5}"#, r#"{"p":"x"}"#, r#"{"p":[5]}"#,
                             r#"{"p":["1-zz"],"k":[1]}"#, r#"{"c":[[1,"a"]]}"#, r#"{"c":[["k",5]]}"#, r#"{"c":[["k"]]}"#, r#"{"c":[["k","1-ab","cd","ef"]]}"#,
                             r#"{"c":[["k","zz","cd"]]}"#, r#"{"c":5}"#,
@@ -2397,17 +2467,35 @@ fn causally_complete(intact: &Items) -> Items {
     let mut parents: BTreeMap<String, (Vec<String>, Vec<String>)> = BTreeMap::new();
     // digests of the objects held by the (hash-valid) packs
     let mut stored: BTreeSet<String> = BTreeSet::new();
+    // The closure judges only what is written the way the library writes it.  Hand-crafted items that the
+    // library reads more liberally (a pack that is not an array of canonically printed objects: the scanner
+    // indexes every top-level {...} slice; a parent or revision text with surrounding junk: the regexes are
+    // unanchored) make it lenient - it then keeps what it cannot judge.
+    let mut lenient_objects = false;
     for (k, v) in intact {
         if k.ends_with(".pack") {
-            if let Ok(Value::Array(objs)) = serde_json::from_slice::<Value>(v) {
-                for o in objs {
-                    stored.insert(digest_string(&js(&o)));
+            match serde_json::from_slice::<Value>(v) {
+                Ok(Value::Array(objs)) if objs.iter().all(|o| o.is_object()) && js(&Value::from(objs.clone())).as_bytes() == &v[..] => {
+                    for o in objs {
+                        stored.insert(digest_string(&js(&o)));
+                    }
                 }
+                _ => lenient_objects = true,
             }
         }
     }
+    let canonical_id = |s: &str| -> bool {
+        let mut it = s.splitn(2, '-');
+        let (i, d) = (it.next().unwrap_or(""), it.next().unwrap_or(""));
+        !i.is_empty() && i.chars().all(|c| c.is_ascii_digit()) && !i.starts_with('0') && !d.is_empty() && d.chars().all(|c| c.is_ascii_hexdigit() && !c.is_ascii_uppercase())
+    };
+    let canonical_rev = |s: &str| -> bool {
+        let mut it = s.splitn(2, '-');
+        let (i, rest) = (it.next().unwrap_or(""), it.next().unwrap_or(""));
+        !i.is_empty() && i.chars().all(|c| c.is_ascii_digit()) && !i.starts_with('0') && !rest.is_empty() && rest.chars().all(|c| c.is_ascii_alphanumeric() || c == '_')
+    };
     // a revision needs no stored body when its digest is a marker or a character code
-    let readable = |dg: &str| dg == "d" || dg == "r" || dg == "e" || (dg.len() <= 8 && u32::from_str_radix(dg, 16).is_ok()) || stored.contains(dg);
+    let readable = |dg: &str| lenient_objects || dg == "d" || dg == "r" || dg == "e" || (dg.len() <= 8 && u32::from_str_radix(dg, 16).is_ok()) || stored.contains(dg);
     let rev_digest = |rev: &str| -> String { rev.splitn(2, '-').nth(1).unwrap_or("").split('_').next().unwrap_or("").to_string() };
     for (k, v) in intact {
         if let Some(id) = k.strip_suffix(".delta") {
@@ -2429,12 +2517,17 @@ fn causally_complete(intact: &Items) -> Items {
                     let objects_ok = match o.get("c") {
                         Some(Value::Array(cs)) => cs.iter().all(|c| match c.as_array().map(|r| r.iter().map(|x| x.as_str()).collect::<Vec<_>>()) {
                             Some(r) if r.len() == 2 => r[1].map(|d| readable(d)).unwrap_or(true),
-                            Some(r) if r.len() == 3 => r[2].map(|d| readable(d)).unwrap_or(true) && r[1].map(|p| readable(&rev_digest(p))).unwrap_or(true),
+                            Some(r) if r.len() == 3 => r[2].map(|d| readable(d)).unwrap_or(true) && r[1].map(|p| !canonical_rev(p) || readable(&rev_digest(p))).unwrap_or(true),
                             _ => true,
                         }),
                         _ => true,
                     };
-                    if idx(id) == Some(want) && objects_ok {
+                    // (a parent written non-canonically cannot be judged here: such a block is kept, with no parents
+                    // as far as the closure is concerned)
+                    let odd_parents = ps.iter().any(|p| !canonical_id(p)) || !canonical_id(id);
+                    if odd_parents {
+                        parents.insert(id.to_string(), (vec![], ks));
+                    } else if idx(id) == Some(want) && objects_ok {
                         parents.insert(id.to_string(), (ps, ks));
                     }
                 }
@@ -2679,7 +2772,13 @@ pub fn gen_op(w: &World, g: &mut Rng, sim_faults: bool) -> Value {
                 json!({"op": "commit", "r": r, "info": info(g)})
             }
         }
-        97 => json!({"op": "faults", "r": r, "seed": g.next() % 100000}),
+        97 => {
+            if g.chance(1, 3) {
+                json!({"op": "deep", "r": r, "depth": *g.pick(&[60usize, 98, 99, 100, 127, 130, 300]), "where": *g.pick(&["doc", "doc", "info"])})
+            } else {
+                json!({"op": "faults", "r": r, "seed": g.next() % 100000})
+            }
+        }
         _ => json!({"op": "sync"}),
     }
 }
